@@ -418,6 +418,46 @@ inductive TStep (c : TreeCfg) : List Act → List Act → Prop
   /-- the running activation returns. -/
   | ret (a : Act) (rest : List Act) : TStep c (a :: rest) rest
 
+/-! ### DNSSEC: the two nested local counters of `verifyRRSIGWithWork` / `verifyOneSigWithWork` -/
+
+/-- the three limits a signature check runs against: `MaxDNSKEYCandidates`
+(per signature), `MaxRRsetSignatureChecks` (per RRset), and what is left of
+the request tree's aggregate `MaxSignatureChecks`. -/
+structure SigCaps where
+  cand : Nat
+  rrset : Nat
+  budget : Nat
+deriving Repr, DecidableEq
+
+inductive SigOut
+  | verified
+  | failed
+  | work (k : Kind)      -- a `WorkError`: the validation stops here
+deriving Repr, DecidableEq
+
+/-- the candidate loop of `verifyOneSigWithWork` for one RRSIG: `rem` eligible
+same-tag keys are left, `i` = `candidateUsed`, `used` = `*rrsetUsed`, `spent` =
+the tree's signature counter; `hit` is the index (in the validator's candidate
+order) of the key that verifies this signature, if any.  Every public-key
+operation (`BeginSignature` + `cryptoVerify`) advances `used` and `spent` by one. -/
+def tryCands (enf : Bool) (c : SigCaps) (hit : Option Nat) : Nat → Nat → Nat → Nat → Nat × Nat × SigOut
+  | 0, _, used, spent => (used, spent, .failed)
+  | rem + 1, i, used, spent =>
+    if enf && decide (c.cand ≤ i) then (used, spent, .work .dnskeyCand)
+    else if enf && decide (c.rrset ≤ used) then (used, spent, .work .rrsetSig)
+    else if enf && decide (c.budget ≤ spent) then (used, spent, .work .signature)
+    else if hit = some i then (used + 1, spent + 1, .verified)
+    else tryCands enf c hit rem (i + 1) (used + 1) (spent + 1)
+
+/-- the signature loop of `verifyRRSIGWithWork` for one RRset: signatures in the
+validator's order, each with its number of eligible candidates and its `hit`. -/
+def verifyRRset (enf : Bool) (c : SigCaps) : List (Nat × Option Nat) → Nat → Nat → Nat × Nat × SigOut
+  | [], used, spent => (used, spent, .failed)
+  | (k, hit) :: t, used, spent =>
+    match tryCands enf c hit k 0 used spent with
+    | (u, s, .failed) => verifyRRset enf c t u s
+    | r => r
+
 /-! ### the cache's alias chase and the request deadline -/
 
 /-- what the chase loop of `cache.additionalAnswer` (all nesting levels of one
